@@ -4,3 +4,5 @@ pub mod c09;
 pub mod c10;
 pub mod c15;
 pub mod c20;
+pub mod diff;
+pub mod sound;
